@@ -34,8 +34,8 @@ SINGLE = {"get": "multiget", "getnext": "multigetnext", "set": "multiset"}
 
 
 def run(ctx: Ctx, rep: Report) -> None:
-    rep.rule("C04-R1", "requests carry the PDU class of the operation and one binding per requested OID in the caller's order", floor=6)
-    rep.rule("C04-R2", "a response with a different number of bindings than requested is refused with SnmpError, all others are accepted", floor=10)
+    rep.rule("C04-R1", "requests carry the PDU class of the operation and one binding per requested OID in the caller's order", floor=3)
+    rep.rule("C04-R2", "a response with a different number of bindings than requested is refused with SnmpError, all others are accepted", floor=2)
     rep.rule("C04-R3", "results are extracted positionally and faithfully from the response", floor=2)
     rep.rule("C04-R4", "a constant subscript on a result list is preceded by an established length", floor=2)
     rep.rule("C04-R5", "a missing object (noSuchObject / noSuchInstance value) raises NoSuchOID for the requested OID", floor=3)
@@ -54,7 +54,7 @@ def run(ctx: Ctx, rep: Report) -> None:
 
     from .fetcheval import emit, fetcher_eval
 
-    decided = emit(ctx, rep, "C04-R3", ["multigetnext"])
+    decided = emit(ctx, rep, "C04-R3", ["multigetnext", "multiget", "multiset"])
     for name, want_cls in OPS.items():
         if name in decided:
             for rule, text in (("C04-R1", f"{name} sends a {want_cls} with one (OID, NULL) binding per requested OID in the caller's order"), ("C04-R2", f"{name}: a response with a different number of bindings than requested is refused with SnmpError, all others are accepted")):
@@ -146,7 +146,9 @@ def run(ctx: Ctx, rep: Report) -> None:
                     if isinstance(expr, ast.Call) and isinstance(expr.func, ast.Name) and expr.func.id == "any":
                         return False  # all SET values are typed in this scenario
                     if isinstance(expr, ast.Call) and isinstance(expr.func, ast.Name) and expr.func.id == "isinstance" and expr.args and isinstance(expr.args[0], ast.Name) and expr.args[0].id in request_item_names:
-                        return True  # ... also when they are tested one by one in the loop over the request
+                        # ... also when they are tested one by one in the loop over the request (and the keys are
+                        # OIDs, not builtin values)
+                        return not (len(expr.args) == 2 and all(isinstance(c, ast.Name) and c.id in ("str", "bytes", "int", "float") for c in (expr.args[1].elts if isinstance(expr.args[1], ast.Tuple) else [expr.args[1]])))
                     return env0(expr)
 
                 outs = simulate(cfg, env)
